@@ -13,7 +13,9 @@ EXPLANATION = (
     "removals, value access and entry act on the innermost holder, insert always on the innermost scope, absence is "
     "Err/None with no map effect (nothing invented). Also: state maps are touched only inside the registry module and "
     "only under the key T::id() of the operation's own T; into_child/into_parent move exactly {parent: self, fresh "
-    "map} resp. (self.parent, detached self.map). NOT decided: equality of returned values with a model over all "
+    "map} resp. (self.parent, detached self.map). (R5) the entry API (Entry / OccupiedEntry / VacantEntry) evaluated on an "
+    "occupied and a vacant std entry applies exactly the HashMap entry primitive each method names, with the caller's "
+    "value, and runs the caller's closure exactly when occupied (and_modify*) resp. vacant (or_insert_with / or_default). NOT decided: equality of returned values with a model over all "
     "histories (run-time); HashMap, RefCell and better_any downcasts are trusted.")
 ASSUMPTIONS = ["std::collections::HashMap and better_any::Tid behave as documented"]
 
